@@ -60,7 +60,7 @@ func skipField(f *types.Var) bool {
 	switch {
 	case strings.Contains(ts, "protobuf/internal/impl."), strings.Contains(ts, "protoimpl."):
 		return true
-	case ts == "sync.Mutex" || ts == "sync.RWMutex" || ts == "sync.Once" || ts == "sync.WaitGroup":
+	case ts == "sync.Once" || ts == "sync.WaitGroup":
 		return true
 	case strings.HasPrefix(ts, "sync/atomic."):
 		return true
